@@ -13,7 +13,7 @@ import threading
 from . import common as C
 
 MODULE = "AcqVerif.Props.C11"
-DRIVERS = ["acq_hal"]
+DRIVERS = ["acq_hal", "acq_runtime"]
 THEOREMS = [
     "AcqVerif.C11.C11_protocol_accepts",
     "AcqVerif.C11.C11_one_close_per_open",
@@ -554,11 +554,23 @@ def run(ctx):
         "memory reads/writes of the device object are events of the model; on the real code they are observed only after the release (ASan / pattern check)",
     ]
     explore(ctx)
+    # the HAL's callers: the runtime owns the handles (video_source_configure / video_sink_configure open, switch and close devices;
+    # acquire_shutdown issues the final closes).  Its programs — device switches whose open or describe fails, streams switched off
+    # and on, shutdown from any state — must leave every driver device with exactly one close per open and nothing afterwards
+    # (the mock driver's close releases the device: ASan sees a touch of the released object, the driver sees a call on it)
+    from . import rtx
+    thorough = ctx.tier == "thorough"
+    rel = lambda p: p["kind"] == "crash" or "device-" in p["msg"] or "CRASH" in p["msg"]
+    rtx.pipeline_part(ctx, ["switchfail", "api", "drop2", "switchfail", "api"], 30 if thorough else 7, 6 if thorough else 3, rel,
+                      "device switches with failing opens, streams switched off, shutdown: one close per open, no call and no write after close")
 
 
 def replay(ctx, path):
     obj = json.load(open(path))
     rp = obj.get("replay") or {}
+    if "harness_input" in rp:
+        from . import rtx
+        return rtx.replay(ctx, path)
     ops = [l for l in rp.get("script", []) if l != "new"]
     exe, drv = build(ctx)
     if not exe:
